@@ -346,7 +346,7 @@ def libm(s, st, name, a):
                 else: use(name + ' monotone decreasing (pairwise instances)', z3.And(z3.Implies(x <= y, r >= r_), z3.Implies(y <= x, r_ >= r)))
     st.apps.append((name, tuple(X), r))
     for c in ax: s.add_pc(st, c)
-    if s.domain_checks: domain_arg(s, st, name, X)
+    if s.domain_checks and not s.in_harness(st.frames[-1]): domain_arg(s, st, name, X)
     return ('f', r)
 
 def domain_arg(s, st, name, X):
@@ -356,6 +356,6 @@ def domain_arg(s, st, name, X):
     elif name == 'log': bad = x <= 0
     if bad is None: return
     r, m = s.check(st, [bad])
-    if r == z3.sat: s.domain_issues.append(('%s: argument outside its domain' % name, s.full_model(st, [bad]) or m[0], st.clone()))
+    if r == z3.sat: s.domain_issues.append(('%s: argument outside its domain in %s' % (name, st.frames[-1].fn.name[:80]), s.full_model(st, [bad]) or m[0], st.clone()))
 
 def finalize_axioms(s, st): pass
